@@ -45,6 +45,9 @@ let drv_pool args =
           | 'a' -> res_str (ap PAcq)
           | 'c' -> res_str (ap PCreate)
           | 'd' -> res_str (ap (PDone (nat_of_int n)))
+          | 'D' ->
+            (* every open stream is finished, whichever session carries it *)
+            for k = 0 to 63 do for _ = 1 to 8 do ignore (ap (PDone (nat_of_int k))) done done; "-"
           | 'x' -> res_str (ap (PDie (nat_of_int n)))
           | 't' -> res_str (ap PTick)
           | 'b' ->
